@@ -102,6 +102,21 @@ Proof.
   vm_compute. repeat split. discriminate.
 Qed.
 
+(* ---- source-text tie for the recursive pass (gen/SrcPass.v: ForwardScheduler.__forward_pass / BackwardScheduler.__backward_pass translated from schedule.py on every run;
+   Sched/SrcPassEquivF.v / SrcPassEquivB.v relates it to the model's pass for every input, Sched/SrcPassProps.v transports the theorems):
+   what follows is about the TRANSLATED SOURCE called once per root as calc does ([src_roots_fold]) after calc's pre-checks. ---- *)
+From PJ Require Import gen.SrcPass Sched.SrcPassRel Sched.SrcPassEquivF Sched.SrcPassEquivB Sched.SrcPassProps.
+
+Theorem C06_src_forward_pass : forall cfg w ds l cl, isolated_ok w = true -> no_future_ends w (now cfg) = true ->
+  src_roots_fold src_fwd_pass cfg w (roots w) = Ok (ds, l, cl) ->
+  WFin w -> all_dated w (src_sst (ds, l, cl)).
+Proof. exact src_fwd_all_dated. Qed.
+
+Theorem C06_src_backward_pass : forall cfg w ds l cl, isolated_ok w = true ->
+  src_roots_fold src_bwd_pass cfg w (rev (roots w)) = Ok (ds, l, cl) ->
+  WFin w -> all_dated w (src_sst (ds, l, cl)).
+Proof. exact src_bwd_all_dated. Qed.
+
 Print Assumptions C06_dates_forward.
 Print Assumptions C06_dates_backward.
 Print Assumptions C06_forward_reaches_all.
@@ -113,3 +128,5 @@ Print Assumptions C06_oracle_meaning.
 Print Assumptions C06_forward_passes_oracle.
 Print Assumptions C06_backward_passes_oracle.
 Print Assumptions C06_example.
+Print Assumptions C06_src_forward_pass.
+Print Assumptions C06_src_backward_pass.
